@@ -67,6 +67,7 @@ with both repairs; all 21 caught, typical signature in brackets):
 from __future__ import annotations
 
 import asyncio
+import re
 import collections
 import types
 
@@ -76,6 +77,13 @@ from models import filter_model as fm
 from checks import fsmlib
 
 edzed = seams.install()
+
+_ADDR = re.compile(r' at 0x[0-9a-fA-F]+')
+
+
+def _noaddr(args):
+    """Exception arguments without object addresses (they differ from run to run)."""
+    return tuple(_ADDR.sub(' at 0x..', a) if isinstance(a, str) else a for a in args)
 
 PROP = 'C16'
 LEVEL = 'exploration'
@@ -549,7 +557,7 @@ class Src(edzed.SBlock):
         try:
             res = self.x_events[idx].send(self, **data)
         except Exception as err:    # pylint: disable=broad-except
-            return ['exc', type(err).__name__, err.args]
+            return ['exc', type(err).__name__, _noaddr(err.args)]
         return ['ok', res]
 
 
@@ -710,7 +718,7 @@ def execute(plan, trace=False):
             try:
                 got = edzed.ExtEvent(src, 'fire').send(idx=pi, data=dict(data))
             except Exception as err:    # pylint: disable=broad-except
-                got = ['send-exc', type(err).__name__, err.args]
+                got = ['send-exc', type(err).__name__, _noaddr(err.args)]
             new = recorded[etype][before:]
             stray = sorted(k for k, v in recorded.items() if k != etype and len(v) != others.get(k, 0))
             kinds = [kind_of(f) for f in pipe['filters']]
